@@ -190,7 +190,7 @@ structure TraceKeyOk (big128 : Bool) (N b S rk : Nat) (sk : List Poly) (key : Ks
   hbk : key.base2k = b
   hDm0 : 0 ≤ Dm
   hm : ∀ j q, normInf (key.mat.entry j q) ≤ Dm
-  hAcc : prodBound' key.dsize key.mat.colsIn key.mat.rows N (2 ^ (b - 1) + 2 ^ b) Dm + 2 * (2 ^ (b - 1) + 2 ^ b) + 8
+  hAcc : prodBound key.dsize key.mat.colsIn key.mat.rows N (2 ^ (b - 1) + 2 ^ b) Dm + 2 * (2 ^ (b - 1) + 2 ^ b) + 8
     ≤ 2 ^ (bitsOf big128 - 2)
   hs : key.mat.colsIn ≤ sk.length
   hEL : ∀ i r, (EL i r).length = N
@@ -270,18 +270,18 @@ theorem trace_level_decrypts (big128 : Bool) (N : Nat) (res : Ks.Ct) (key : Ks.K
     rw [hrk1, hk.hrout]; have := hk.hc0; unfold Ks.Key.rankOut; omega
   have hprod := prodOf_conv_bound N r1.rank r1 key (2 ^ (b - 1)) Dm hw1 hrout' hk.hD (by rw [hb1]; exact hb0) (by rw [hb1]; exact hb62)
     (by rw [hkb]; exact hb0) (by rw [hkb]; exact hb62) hp1.le hIn hbd1 hk.hDm0 hk.hm
-  have hHp0 := prodBound'_nonneg key.dsize key.mat.colsIn key.mat.rows N (2 ^ (b - 1) + 2 ^ key.base2k) Dm (by positivity) hk.hDm0
-  have hAcc : prodBound' key.dsize key.mat.colsIn key.mat.rows N (2 ^ (b - 1) + 2 ^ key.base2k) Dm
+  have hHp0 := prodBound_nonneg key.dsize key.mat.colsIn key.mat.rows N (2 ^ (b - 1) + 2 ^ key.base2k) Dm (by positivity) hk.hDm0
+  have hAcc : prodBound key.dsize key.mat.colsIn key.mat.rows N (2 ^ (b - 1) + 2 ^ key.base2k) Dm
       + 2 * (2 ^ (b - 1) + 2 ^ key.base2k) + 8 ≤ 2 ^ (bitsOf big128 - 2) := by rw [hkb]; exact hk.hAcc
   obtain ⟨r2, aConv, hfused, hconv', gw2, hb2, hs2, hr2, E1, E3, Q, hE1, hE3, hn1, hn3, hmain, hbound⟩ :=
     glwe_automorphism_add_decrypts big128 N r1.base2k r1.size r1.rank r1 key sk gInv EL KL (2 ^ (b - 1))
-      (prodBound' key.dsize key.mat.colsIn key.mat.rows N (2 ^ (b - 1) + 2 ^ key.base2k) Dm) hN hg hsk hk.hinv hw1
+      (prodBound key.dsize key.mat.colsIn key.mat.rows N (2 ^ (b - 1) + 2 ^ key.base2k) Dm) hN hg hsk hk.hinv hw1
       (by rw [hrk1]; exact hk.hrank) (by rw [hrk1]; exact hk.hrout) rfl hk.hc0 hk.hD hk.hM hk.hS
       (by rw [hb1]; exact hb0) (by rw [hb1]; exact hb62) (by rw [hkb]; exact hb0) (by rw [hkb]; exact hb62)
       (by rw [hb1]; exact hb0) (by rw [hb1]; exact hb62) hp1.le hIn hbd1 hHp0 hAcc hprod hk.hs hk.hEL hk.hKL hk.hkey
       (by rw [hcs]; exact hk.hcov1) (by rw [hcs]; exact hk.hcov2)
   have hdig := automorphismFused_digits .add big128 N r1.base2k r1.size r1.rank r1 key sk gInv EL KL (2 ^ (b - 1))
-      (prodBound' key.dsize key.mat.colsIn key.mat.rows N (2 ^ (b - 1) + 2 ^ key.base2k) Dm) hN hg hw1
+      (prodBound key.dsize key.mat.colsIn key.mat.rows N (2 ^ (b - 1) + 2 ^ key.base2k) Dm) hN hg hw1
       (by rw [hrk1]; exact hk.hrank) (by rw [hrk1]; exact hk.hrout) rfl hk.hc0 hk.hD hk.hM hk.hS
       (by rw [hb1]; exact hb0) (by rw [hb1]; exact hb62) (by rw [hkb]; exact hb0) (by rw [hkb]; exact hb62)
       (by rw [hb1]; exact hb0) (by rw [hb1]; exact hb62) hp1.le hIn hbd1 hHp0 hAcc hprod hk.hEL hk.hKL hk.hkey r2 hfused
